@@ -108,6 +108,15 @@ class Run:
             st, v, el = lib.timed(w.wait, timeout=8)
             dead = (st == 'ok' and v is True)
             self.info['observe'] = [st, lib.safe_repr(v)]
+        elif how == 'wait-poll':
+            st, v = 'ok', False
+            for _ in range(3000):
+                st, v, el = lib.timed(w.wait, timeout=c.get('poll_timeout', 0.01))
+                if st != 'ok' or v is True:
+                    break
+                s.sleep(0.002)
+            dead = (st == 'ok' and v is True)
+            self.info['observe'] = [st, lib.safe_repr(v)]
         elif how == 'terminate':
             kwt = {'timeout': 3}
             if thread_kind:
@@ -356,8 +365,13 @@ def plan(ctx):
                     fault = {'kind': ending, 'thread': tname, 'nline': lpts[rng.randrange(len(lpts))][3] + rng.randrange(0, 3)}
             if fault is None:
                 ending = 'natural'
-        c = mk_case(ctx, kind, fl, ending, rng.choice(['wait', 'terminate', 'poll']), i, fault=fault, policy=pol, knobs=knobs,
+        c = mk_case(ctx, kind, fl, ending, rng.choice(['wait', 'terminate', 'poll', 'wait-poll']), i, fault=fault, policy=pol, knobs=knobs,
                     nreads=rng.choice([2, 3, 4]), tag='random')
+        c['poll_timeout'] = rng.choice([0, 0.001, 0.01, 0.05])
+        if fault is None and lib.is_remote(kind) and rng.random() < 0.4:
+            c['fault'] = {'kind': 'stall', 'role': 'RemoteWorker._run_frontend', 'any_thread': True,
+                          'qualname': rng.choice(['RemoteWorker._fetch_results', 'PersistentRemoteWorker._fetch_results', 'recv_msg']),
+                          'occ': rng.randrange(1, 6), 'duration': rng.choice([0.05, 0.5, 3.0])}
         if ending == 'net-timeout':
             c['net_delay'] = rng.choice([0.0, 0.01, 0.05, 0.3])
             c['net_errno'] = rng.choice(['ETIMEDOUT', 'ETIMEDOUT', 'EHOSTUNREACH'])
